@@ -19,7 +19,8 @@ Call1(fe, a) == ECall(fe, <<a>>)
 Setup == <<EAsg("g", N(10)),
            EAsg("f", ELam(<<Req("x")>>, Plus(X, G))),
            EAsg("l", EList(<<N(1), N(2), N(3)>>)),
-           EAsg("h", ELam(<<Req("x"), Req("i")>>, EBin("mul", X, EId("i"))))>>
+           EAsg("h", ELam(<<Req("x"), Req("i")>>, EBin("mul", X, EId("i")))),
+           EAsg("p", EBin("div", N(1), N(10))), EAsg("q", EBin("div", EUn("neg", N(3)), N(10)))>>
 Programs == <<
   Plus(Call1(F, N(1)), Call1(F, N(2))),
   EList(<<Call1(F, N(1)), EBin("via", L, F), Call1(EId("sum"), L)>>),
@@ -48,6 +49,9 @@ Programs == <<
   EList(<<EBin("pow", EBin("div", N(11), N(10)), N(10)), EBin("pow", EBin("div", N(17), N(10)), N(7)), EBin("pow", EBin("div", N(93), N(100)), N(25)),
           EBin("mod", EBin("div", N(22), N(7)), N(3)), EBin("div", EBin("mul", EBin("div", N(1), N(3)), N(3)), N(49))>>),
   ECall(ELam(<<Req("x")>>, EBin("pow", X, N(12))), <<EBin("div", N(105), N(100))>>),
+  \* a product inside a sum, over names and literals only: rounded twice, however it is written
+  Plus(EBin("mul", EId("p"), N(3)), EId("q")),
+  EList(<<Plus(EBin("mul", EId("p"), EId("p")), EId("q")), EBin("sub", EBin("mul", N(3), EId("p")), EId("p")), ECall(ELam(<<Req("x")>>, Plus(EBin("mul", X, N(7)), EId("q"))), <<EId("p")>>)>>),
   \* sort on values with no natural order, written in place
   ECall(EId("sort"), <<EList(<<ERec(<<RStatic(<<12>>, N(2))>>), ERec(<<RStatic(<<12>>, N(1))>>), EList(<<ELit(Null)>>), EList(<<ELit(Null)>>)>>)>>)
 >>
